@@ -41,6 +41,24 @@ func messageArrayStores(pr *Protocol, fn *ssa.Function) []arrayStore {
 			switch a := st.Addr.(type) {
 			case *ssa.IndexAddr:
 				add(st, a, b)
+				// the array chosen by a private helper from the content type (`store, ok := p.storeFor(content);
+				// store[from] = msg`): one filing per return of the helper that hands back a message array,
+				// selected by the facts at that return
+				x := core.Strip(a.X)
+				ri := 0
+				if ex, isEx := x.(*ssa.Extract); isEx {
+					x, ri = ex.Tuple, ex.Index
+				}
+				if call, isC := x.(*ssa.Call); isC && !call.Call.IsInvoke() && core.PrivateHelper(core.Callee(call)) {
+					for _, ret := range core.Returns(core.Callee(call)) {
+						if ri >= len(ret.Results) {
+							continue
+						}
+						if arr := core.LastFields(core.Strip(ret.Results[ri]), 1); contains(pr.Arrays, arr) {
+							out = append(out, arrayStore{st, a, arr, ret.Block()})
+						}
+					}
+				}
 			case *ssa.Phi:
 				for i, e := range a.Edges {
 					add(st, e, a.Block().Preds[i])
